@@ -223,6 +223,9 @@ func genCleanScenarios(g *fgen, n int, apis []string, modes []string, opt cleanG
 		if opt.counts && g.chance(0.3) {
 			spec.Count = 2
 		}
+		if g.chance(0.2) {
+			spec.Shuffle = "on" // the real runner's random test order
+		}
 		srt := g.chance(opt.sortProb)
 		sc.Procs = append(sc.Procs, &Proc{Spec: spec, Real: true, Tests: q.tests(), Clean: &CleanDef{Sort: srt}, State: "call"})
 		if g.chance(opt.againProb) {
